@@ -982,3 +982,96 @@ func (r *Run) PanicsAlways(fnName, why string) {
 	}
 	r.pass("K8-always-panics", fnName, "never returns", "", why, file, line)
 }
+
+// OnSuccessMustCall: in fn, whenever a call matching `match` succeeds (nil error), every path to a
+// return passes a call matching one of targets ("|" separated).
+func (r *Run) OnSuccessMustCall(fnName, match, targets, why string) {
+	fn := r.fn(fnName)
+	if fn == nil {
+		return
+	}
+	file, line := r.P.FnPos(fn)
+	construct := "success of " + match + " ⇒ " + targets
+	sites := r.P.FindCalls(fn, match, false)
+	if len(sites) == 0 {
+		r.viol("K2-on-success", fnName, construct, fnName+" no longer calls "+match, why, file, line)
+		return
+	}
+	tl := strings.Split(targets, "|")
+	for _, cs := range sites {
+		from, okSucc := r.P.nilErrEdge(cs.Instr)
+		if from == nil {
+			r.viol("K2-on-success", fnName, construct, fmt.Sprintf("the error of %s at %s:%d is not tested", match, cs.File, cs.Line), why, cs.File, cs.Line)
+			return
+		}
+		if b, bad := r.exitReachableAvoidingCalls(fn, okSucc, tl); bad {
+			f2, l2 := r.P.Pos(lastInstr(b).Pos())
+			r.viol("K2-on-success", fnName, construct, fmt.Sprintf("after %s succeeds (%s:%d) the return at %s:%d is reachable without calling %s", match, cs.File, cs.Line, f2, l2, targets), why, f2, l2)
+			return
+		}
+		// the loop must not come back to `match` without passing the target either
+		if reachesBlockAvoidingCalls(r, fn, okSucc, cs.Instr.Block(), tl) {
+			r.viol("K2-on-success", fnName, construct, fmt.Sprintf("after %s succeeds (%s:%d) the next iteration is reachable without calling %s", match, cs.File, cs.Line, targets), why, cs.File, cs.Line)
+			return
+		}
+	}
+	r.pass("K2-on-success", fnName, construct, fmt.Sprintf("%d site(s)", len(sites)), why, sites[0].File, sites[0].Line)
+}
+
+func reachesBlockAvoidingCalls(r *Run, fn *ssa.Function, start, target *ssa.BasicBlock, targets []string) bool {
+	has := map[*ssa.BasicBlock]bool{}
+	for _, cs := range r.P.Calls(fn, false) {
+		for _, t := range targets {
+			if calleeMatches(cs, t) {
+				has[cs.Instr.Block()] = true
+			}
+		}
+	}
+	if has[start] {
+		return false
+	}
+	seen := map[*ssa.BasicBlock]bool{start: true}
+	st := []*ssa.BasicBlock{start}
+	for len(st) > 0 {
+		b := st[len(st)-1]
+		st = st[:len(st)-1]
+		for _, s := range b.Succs {
+			if s == target {
+				return true
+			}
+			if !seen[s] && !has[s] {
+				seen[s] = true
+				st = append(st, s)
+			}
+		}
+	}
+	return false
+}
+
+// MustCall: every return of fn is preceded by a call matching `match` (whatever its outcome).
+func (r *Run) MustCall(fnName, match, why string) {
+	fn := r.fn(fnName)
+	if fn == nil {
+		return
+	}
+	file, line := r.P.FnPos(fn)
+	construct := "always calls " + match
+	sites := r.P.FindCalls(fn, match, false)
+	if len(sites) == 0 {
+		r.viol("K2-must-call", fnName, construct, fnName+" no longer calls "+match, why, file, line)
+		return
+	}
+	cut := map[*ssa.BasicBlock]bool{}
+	for _, cs := range sites {
+		cut[cs.Instr.Block()] = true
+	}
+	reach := reachableAvoiding(fn, nil, func(b *ssa.BasicBlock) bool { return cut[b] })
+	for b := range reach {
+		if _, ok := lastInstr(b).(*ssa.Return); ok {
+			f2, l2 := r.P.Pos(lastInstr(b).Pos())
+			r.viol("K2-must-call", fnName, construct, fmt.Sprintf("%s can return (%s:%d) without having called %s", fnName, f2, l2, match), why, f2, l2)
+			return
+		}
+	}
+	r.pass("K2-must-call", fnName, construct, "", why, sites[0].File, sites[0].Line)
+}
